@@ -448,7 +448,16 @@ func (g *unigen) addRef() {
 	}
 	key := fmt.Sprintf("p%d", g.nref)
 	g.nref++
-	g.props(site)[key] = map[string]any{"$ref": ref}
+	node := map[string]any{"$ref": ref}
+	if !g.d7 && r.IntN(5) == 0 {
+		// both reference keywords in ONE schema object: $dynamicRef (to a target without a dynamic anchor: it behaves like $ref)
+		// and $ref are two independent applicators, both must hold
+		if ref2, form2 := g.spell(site, Pick(r, cands)); ref2 != "" || form2 != "" {
+			node["$dynamicRef"] = ref2
+			form += "+dyn:" + form2
+		}
+	}
+	g.props(site)[key] = node
 	g.u.Routes = append(g.u.Routes, URoute{Path: append(append([]string{}, site.route...), key), Ref: ref, Form: form, Site: site.uri})
 }
 
